@@ -105,8 +105,11 @@ func c01TokenLines(r *Rng, toks []string, max int) []string {
 			al = append(al, t)
 		}
 	}
+	// the cubic part runs over a seed-chosen sub-alphabet, the linear parts (first fields,
+	// field-count sweeps) over the whole alphabet
+	all := append([]string(nil), al...)
 	for len(al) > max {
-		k := r.Intn(len(al) - len(atoms))
+		k := r.Intn(len(al))
 		al = append(al[:k], al[k+1:]...)
 	}
 	var lines []string
@@ -124,7 +127,7 @@ func c01TokenLines(r *Rng, toks []string, max int) []string {
 	}
 	rec("", 0)
 	first := "x"
-	for _, t := range al {
+	for _, t := range all {
 		if len(t) > 1 && strings.HasSuffix(t, "/") && !strings.ContainsAny(t, "@$ ") {
 			first = t + "x"
 			break
@@ -137,12 +140,12 @@ func c01TokenLines(r *Rng, toks []string, max int) []string {
 		}
 	}
 	var prefixes = []string{""}
-	for _, t := range al {
+	for _, t := range all {
 		if len(t) > 1 && strings.HasSuffix(t, " ") {
 			prefixes = append(prefixes, t)
 		}
 	}
-	for _, s := range al {
+	for _, s := range all {
 		if len(s) != 1 || (s[0] >= '0' && s[0] <= '9') || (s[0] >= 'a' && s[0] <= 'z') || (s[0] >= 'A' && s[0] <= 'Z') {
 			continue
 		}
